@@ -221,8 +221,12 @@ def start_server(world, trace, cfg, sock, addr):
     ctx = None
     if cfg.get('tls'):
         ctx = SimTLSContext(fail_handshake=bool(cfg.get('tls_fail')))
+    auth = cfg.get('auth') or False
+    if isinstance(auth, list):
+        # the installed pysasl (1.2.0) indexes mechanisms by bytes names
+        auth = [x.encode('ascii') if isinstance(x, str) else x for x in auth]
     edge = SmtpEdge(None, q, max_size=cfg.get('max_size'),
-                    validator_class=V, auth=cfg.get('auth') or False,
+                    validator_class=V, auth=auth,
                     context=ctx,
                     tls_immediately=bool(cfg.get('tls_immediately')),
                     command_timeout=cfg.get('command_timeout'),
